@@ -12,7 +12,7 @@ import re
 import time
 
 VERIF = pathlib.Path(__file__).resolve().parent.parent
-EVIDENCE_DIR = VERIF / "evidence"
+EVIDENCE_DIR = pathlib.Path(os.environ.get("VERIF_EVIDENCE_DIR") or (VERIF / "evidence"))
 REPLAY_DIR = EVIDENCE_DIR / "replay"
 KNOWN_FINDINGS = VERIF / "known_findings.json"
 
